@@ -246,6 +246,216 @@ func (e boolEnv) resolve(v ssa.Value) ssa.Value {
 	return v
 }
 
+// retEnv binds, along a path that went through an inlined helper, the helper's
+// call to the operands of the return it left through.
+type retEnv map[*ssa.Call][]ssa.Value
+
+func (r retEnv) key() string {
+	if len(r) == 0 {
+		return ""
+	}
+	var parts []string
+	for c, vs := range r {
+		s := c.Name() + "@" + c.Parent().Name() + "="
+		for _, v := range vs {
+			if v == nil {
+				s += "_,"
+			} else {
+				s += v.Name() + ","
+			}
+		}
+		parts = append(parts, s)
+	}
+	sort.Strings(parts)
+	return strings.Join(parts, ";")
+}
+
+func (r retEnv) bind(c *ssa.Call, vals []ssa.Value) retEnv {
+	out := retEnv{}
+	for k, v := range r {
+		out[k] = v
+	}
+	out[c] = vals
+	return out
+}
+
+// lookup resolves a value that is (an extract of) a bound helper call.
+func (r retEnv) lookup(v ssa.Value) (ssa.Value, bool) {
+	switch x := v.(type) {
+	case *ssa.Call:
+		if vs, ok := r[x]; ok && len(vs) == 1 && vs[0] != nil {
+			return vs[0], true
+		}
+	case *ssa.Extract:
+		if c, ok := x.Tuple.(*ssa.Call); ok {
+			if vs, ok := r[c]; ok && x.Index < len(vs) && vs[x.Index] != nil {
+				return vs[x.Index], true
+			}
+		}
+	}
+	return nil, false
+}
+
+// env is what is known along a path: resolved boolean phis and helper results.
+type env struct {
+	b  boolEnv
+	r  retEnv
+	nn map[ssa.Value]bool // values known non-nil (an error a helper returned on an error return)
+}
+
+func (e env) key() string {
+	k := e.b.key() + "#" + e.r.key()
+	if len(e.nn) > 0 {
+		var parts []string
+		for v := range e.nn {
+			parts = append(parts, v.Name())
+		}
+		sort.Strings(parts)
+		k += "!" + strings.Join(parts, ",")
+	}
+	return k
+}
+
+func (e env) enter(pred, b *ssa.BasicBlock) env { return env{e.b.enter(pred, b), e.r, e.nn} }
+
+// leave returns the environment after leaving inlined helper call through return rt.
+func (e env) leave(call *ssa.Call, rt *ssa.Return) env {
+	vals := make([]ssa.Value, len(rt.Results))
+	nn := e.nn
+	for ri := range rt.Results {
+		vals[ri] = e.resolve(RetVal(rt, ri))
+		if isErrorType(rt.Results[ri].Type()) && vals[ri] != nil {
+			if _, isC := vals[ri].(*ssa.Const); !isC && definitelyNonNil(rt, ri) {
+				m := map[ssa.Value]bool{}
+				for k, v := range nn {
+					m[k] = v
+				}
+				m[vals[ri]] = true
+				nn = m
+			}
+		}
+	}
+	return env{e.b, e.r.bind(call, vals), nn}
+}
+
+// definitelyNonNil: operand idx of return rt is a freshly made error, or was
+// tested non-nil on every path to rt inside its function.
+func definitelyNonNil(rt *ssa.Return, idx int) bool {
+	v := RetVal(rt, idx)
+	if isFreshError(v, 0) {
+		return true
+	}
+	f := rt.Parent()
+	w := Query{Fn: f, From: []Point{{f.Blocks[0], 0}}, Target: func(in ssa.Instruction) bool { return in == ssa.Instruction(rt) },
+		CutEdge: func(b *ssa.BasicBlock, i int, l *Lit) bool {
+			if l == nil {
+				return false
+			}
+			x, isNil, ok := l.NilTest()
+			return ok && !isNil && SameValue(x, v)
+		}}.Find()
+	return w == nil
+}
+
+func (e env) resolve(v ssa.Value) ssa.Value {
+	for i := 0; i < 8; i++ {
+		v = e.b.resolve(v)
+		if w, ok := e.r.lookup(ResolveLocal(v)); ok {
+			v = w
+			continue
+		}
+		break
+	}
+	return v
+}
+
+func constEq(x, y *ssa.Const) bool {
+	if x.Value == nil || y.Value == nil {
+		return x.Value == nil && y.Value == nil
+	}
+	return constant.Compare(x.Value, token.EQL, y.Value)
+}
+
+// edgeLit is boolEnv.edgeLit with helper results substituted: a condition over
+// the (error/bool/pointer) result of an inlined helper reads as the condition
+// over what the helper returned on this path; if that is a constant the branch is decided.
+func (e env) edgeLit(b *ssa.BasicBlock, i int) (lit *Lit, feasible bool) {
+	if len(e.r) == 0 && len(e.nn) == 0 {
+		return e.b.edgeLit(b, i)
+	}
+	if len(b.Instrs) == 0 {
+		return nil, true
+	}
+	iff, ok := b.Instrs[len(b.Instrs)-1].(*ssa.If)
+	if !ok || len(b.Succs) != 2 {
+		return nil, true
+	}
+	c := iff.Cond
+	pos := i == 0
+	for n := 0; n < 16; n++ {
+		c = ResolveLocal(c)
+		if u, ok := c.(*ssa.UnOp); ok && u.Op == token.NOT {
+			c = u.X
+			pos = !pos
+			continue
+		}
+		if ph, ok := c.(*ssa.Phi); ok {
+			if r, has := e.b[ph]; has && r != c {
+				c = r
+				continue
+			}
+		}
+		if w, ok := e.r.lookup(c); ok {
+			c = w
+			continue
+		}
+		break
+	}
+	if k, ok := c.(*ssa.Const); ok && k.Value != nil && isBool(k.Type()) {
+		return nil, constant.BoolVal(k.Value) == pos
+	}
+	if bo, ok := c.(*ssa.BinOp); ok {
+		x, y := e.resolve(bo.X), e.resolve(bo.Y)
+		if bo.Op == token.EQL || bo.Op == token.NEQ {
+			// a helper's error known to be non-nil on the return it left through
+			var other ssa.Value
+			switch {
+			case e.nn[x]:
+				other = y
+			case e.nn[y]:
+				other = x
+			}
+			if c, isC := other.(*ssa.Const); isC && c.Value == nil {
+				return nil, (bo.Op == token.NEQ) == pos
+			}
+		}
+		if x != bo.X || y != bo.Y {
+			if cx, okx := x.(*ssa.Const); okx {
+				if cy, oky := y.(*ssa.Const); oky && (bo.Op == token.EQL || bo.Op == token.NEQ) {
+					eq := constEq(cx, cy)
+					if bo.Op == token.NEQ {
+						eq = !eq
+					}
+					return nil, eq == pos
+				}
+			}
+			// the atom reads as the condition over what the helper returned; the operands keep
+			// their identity in the frame that branches (rules compare them with that frame's values)
+			l := CondLit(&ssa.BinOp{Op: bo.Op, X: x, Y: y}, pos)
+			ox, oy := ResolveLocal(bo.X), ResolveLocal(bo.Y)
+			if l.X == x && l.Y == y {
+				l.X, l.Y = ox, oy
+			} else if l.X == y && l.Y == x {
+				l.X, l.Y = oy, ox
+			}
+			l.Cond = c
+			return &l, true
+		}
+	}
+	l := CondLit(c, pos)
+	return &l, true
+}
+
 // edgeLit computes the literal of edge b->Succs[i] under env; feasible=false
 // when the environment decides the branch the other way.
 func (e boolEnv) edgeLit(b *ssa.BasicBlock, i int) (lit *Lit, feasible bool) {
@@ -285,26 +495,30 @@ func (q Query) Find() *Witness {
 	type state struct {
 		b   *ssa.BasicBlock
 		i   int
-		env boolEnv
+		env env
 		par *node
 	}
-	if len(q.Fn.Blocks) == 0 {
+	fn := q.Fn
+	if len(q.From) == 0 {
+		fn = InlineRoot(fn) // a query about code inside an extracted helper starts where control really starts
+	}
+	if fn == nil || len(fn.Blocks) == 0 {
 		return nil
 	}
 	start := q.From
 	if len(start) == 0 {
-		start = []Point{{q.Fn.Blocks[0], 0}}
+		start = []Point{{fn.Blocks[0], 0}}
 	}
 	visited := map[string]bool{}
 	var work []state
 	for _, s := range start {
-		work = append(work, state{s.B, s.I, nil, nil})
+		work = append(work, state{s.B, s.I, env{}, nil})
 	}
 	for len(work) > 0 {
 		s := work[0]
 		work = work[1:]
-		if s.i == 0 {
-			k := strconv.Itoa(s.b.Index) + "|" + s.env.key()
+		if s.i == 0 || Inl != nil {
+			k := s.b.Parent().Name() + "|" + strconv.Itoa(s.b.Index) + "|" + strconv.Itoa(s.i) + "|" + s.env.key()
 			if visited[k] {
 				continue
 			}
@@ -313,10 +527,27 @@ func (q Query) Find() *Witness {
 		cut := false
 		for i := s.i; i < len(s.b.Instrs); i++ {
 			in := s.b.Instrs[i]
+			if rt, isR := in.(*ssa.Return); isR {
+				if cs, ok := InlineSite(s.b.Parent()); ok && s.b.Parent() != q.Fn {
+					// the return of an extracted helper is not a return of the function under
+					// analysis: control comes back after the call, with the results bound
+					call := cs.Instr.(*ssa.Call)
+					p := After(call)
+					work = append(work, state{p.B, p.I, s.env.leave(call, rt), s.par})
+					cut = true
+					break
+				}
+			}
 			if q.Target != nil && q.Target(in) {
 				return &Witness{Instr: in, Lits: s.par.lits()}
 			}
 			if q.CutInstr != nil && q.CutInstr(in) {
+				cut = true
+				break
+			}
+			if g := InlinedCallee(in); g != nil {
+				// control enters the extracted helper …
+				work = append(work, state{g.Blocks[0], 0, s.env, s.par})
 				cut = true
 				break
 			}
@@ -655,7 +886,7 @@ func EnumPaths(fn *ssa.Function, o EnumOpts) ([]Path, error) {
 	var effAt []int
 	var blocks []*ssa.BasicBlock
 	var err error
-	var curEnv boolEnv
+	var curEnv env
 	emit := func(end ssa.Instruction, kind string) {
 		if len(out) >= o.Max {
 			err = ErrTooManyPaths
@@ -676,25 +907,38 @@ func EnumPaths(fn *ssa.Function, o EnumOpts) ([]Path, error) {
 			Blocks: append([]*ssa.BasicBlock(nil), blocks...),
 		})
 	}
-	var walk func(b *ssa.BasicBlock, first bool, env boolEnv)
-	walk = func(b *ssa.BasicBlock, first bool, env boolEnv) {
+	var walk func(b *ssa.BasicBlock, from int, first bool, e env)
+	walk = func(b *ssa.BasicBlock, from int, first bool, e env) {
 		if err != nil {
 			return
 		}
-		if !first && o.Leave != nil && o.Leave(b) {
-			emit(nil, "leave")
-			return
+		if from == 0 {
+			if !first && o.Leave != nil && o.Leave(b) {
+				emit(nil, "leave")
+				return
+			}
+			if onPath[b] {
+				emit(nil, "back")
+				return
+			}
+			onPath[b] = true
+			blocks = append(blocks, b)
+			defer func() { onPath[b] = false; blocks = blocks[:len(blocks)-1] }()
 		}
-		if onPath[b] {
-			emit(nil, "back")
-			return
-		}
-		onPath[b] = true
-		blocks = append(blocks, b)
 		ne := len(effs)
-		defer func() { onPath[b] = false; effs = effs[:ne]; effAt = effAt[:ne]; blocks = blocks[:len(blocks)-1] }()
-		curEnv = env
-		for _, in := range b.Instrs {
+		defer func() { effs = effs[:ne]; effAt = effAt[:ne] }()
+		curEnv = e
+		for idx := from; idx < len(b.Instrs); idx++ {
+			in := b.Instrs[idx]
+			if rt, isR := in.(*ssa.Return); isR {
+				if cs, ok := InlineSite(b.Parent()); ok && b.Parent() != fn {
+					// leaving an extracted helper: go on after its call, results bound
+					call := cs.Instr.(*ssa.Call)
+					p := After(call)
+					walk(p.B, p.I, false, e.leave(call, rt))
+					return
+				}
+			}
 			if o.Effect != nil && o.Effect(in) {
 				effs = append(effs, in)
 				effAt = append(effAt, len(lits))
@@ -707,9 +951,13 @@ func EnumPaths(fn *ssa.Function, o EnumOpts) ([]Path, error) {
 				emit(in, "panic")
 				return
 			}
+			if g := InlinedCallee(in); g != nil {
+				walk(g.Blocks[0], 0, false, e)
+				return
+			}
 		}
 		for i, s := range b.Succs {
-			l, feasible := env.edgeLit(b, i)
+			l, feasible := e.edgeLit(b, i)
 			if !feasible {
 				continue
 			}
@@ -728,14 +976,14 @@ func EnumPaths(fn *ssa.Function, o EnumOpts) ([]Path, error) {
 				n0 := len(lits)
 				lits = append(lits, *l)
 				lits = append(lits, ExpandLit(*l)...)
-				walk(s, false, env.enter(b, s))
+				walk(s, 0, false, e.enter(b, s))
 				lits = lits[:n0]
 			} else {
-				walk(s, false, env.enter(b, s))
+				walk(s, 0, false, e.enter(b, s))
 			}
 		}
 	}
-	walk(start, true, nil)
+	walk(start, 0, true, env{})
 	return out, err
 }
 
@@ -768,11 +1016,33 @@ func (l *RangeLoop) BodyBlocks() []*ssa.BasicBlock {
 }
 
 // Contains reports whether instruction in lies in the loop body.
-func (l *RangeLoop) Contains(in ssa.Instruction) bool { return l.body[in.Block()] }
+func (l *RangeLoop) Contains(in ssa.Instruction) bool {
+	for i := 0; i < 8 && in != nil; i++ {
+		if l.body[in.Block()] {
+			return true
+		}
+		// an instruction of an extracted helper is where the helper is called
+		cs, ok := InlineSite(in.Parent())
+		if !ok {
+			return false
+		}
+		in = cs.Instr.(ssa.Instruction)
+	}
+	return false
+}
 
 // RangeLoops finds the range loops of fn: map/string ranges (Range/Next
 // instructions) and slice ranges (index-counter loops built by go/ssa).
 func RangeLoops(fn *ssa.Function) []*RangeLoop {
+	out := rangeLoops1(fn)
+	// loops of helpers that were extracted out of fn belong to fn
+	for _, g := range InlinedUnder(fn) {
+		out = append(out, rangeLoops1(g)...)
+	}
+	return out
+}
+
+func rangeLoops1(fn *ssa.Function) []*RangeLoop {
 	var out []*RangeLoop
 	for _, b := range fn.Blocks {
 		if len(b.Instrs) == 0 {
